@@ -114,4 +114,16 @@ mod verif_kani {
             assert!(eq == (a.slice() == other));
         }
     }
+
+    /// to_vec() is the stored sum cut to its length (what the writers record as descriptor checksum)
+    #[kani::proof]
+    #[kani::unwind(82)]
+    fn hashsum_to_vec() {
+        let h = any_hashsum();
+        let v = h.to_vec();
+        assert!(v.len() == h.length);
+        let i: usize = kani::any();
+        kani::assume(i < v.len());
+        assert!(v[i] == h.sum[i]);
+    }
 }
